@@ -154,8 +154,8 @@ func (s *sim) propose(chain *core.BlockChain, engine *ucon.Server, parent *types
 					number, cd.label, aerr, used0, header.GasUsed, rew0, header.GasRewards)
 			}
 			if gp.Gas() != gas0 {
-				r.Report("refused-tx-changed-gas-pool", "refusal=%s: block %d: %s was refused (%v) but the block gas pool went %d -> %d (lost %d)",
-					refusalClass(aerr), number, cd.label, aerr, gas0, gp.Gas(), int64(gas0)-int64(gp.Gas()))
+				r.Report("refused-tx-changed-gas-pool."+refusalClass(aerr), "block %d: %s (gas limit %d, intrinsic %d) was refused (%v) but the block gas pool went %d -> %d (lost %d)",
+					number, cd.label, cd.tx.Gas(), intrinsicGas(cd.tx.To(), cd.tx.Data()), aerr, gas0, gp.Gas(), int64(gas0)-int64(gp.Gas()))
 				// keep going with the pool as the code left it (what a worker would do)
 			}
 			if force {
